@@ -29,6 +29,11 @@ DEFECTS = [
     ("unknown-identifier-expr", "v0 = v0 + qq;", "syntax", "body"),
     ("unknown-function", "nofn();", "syntax", "body"),
     ("redefinition", "char v0;", "syntax", "top-after-decl"),
+    # errors raised by the evaluator of #if / #elif expressions
+    ("if-undefined-identifier", "#if NOPE9 == 1\n#endif", "syntax", "top"),
+    ("if-expected-term", "#if 1 ==\n#endif", "syntax", "top"),
+    ("if-trailing-text", "#if 1 1\n#endif", "syntax", "top"),
+    ("elif-undefined-identifier", "#if 0\n#elif NOPE8\n#endif", "syntax", "top-second-line"),
     ("too-many-args", "f(1, 2, 3);", "syntax", "body"),
     # errors raised by the code generator (the position travels through syntax_error / compiler_error)
     ("codegen-multiply", "v0 = v0 * v0;", "syntax", "body"),
@@ -61,9 +66,10 @@ def build_case(rng, kind, text, where, in_include):
     lines.append("void f(char a) { }")
     for _ in range(rng.randint(0, 3)):
         shift()
-    if where in ("top", "top-after-decl"):
-        lines.append(text)
-        target = [len(lines)]
+    if where in ("top", "top-after-decl", "top-second-line"):
+        parts = text.split("\n")
+        lines.extend(parts)
+        target = [len(lines) - len(parts) + (2 if where == "top-second-line" else 1)]
         lines.append("void main() { v0 = 1; }")
     else:
         lines.append("void main() {")
